@@ -277,3 +277,9 @@ Definition run_dnode_items (gs : list (dbexp * guard_action)) (callee : list dst
                     | Some r => r
                     | None => run_dmethod callee [n] flags DirInvalid [] [] d
                     end) ns d.
+
+(* add_nodes_from: a loop over items n | (n, dict); `newdict` is the call's **attr, or a copy of it updated with the item's dict *)
+Definition run_dnode_attr_items (body : list dstmt) (items : list (lbl * option attrs)) (a : attrs) (d : dhg) : dres :=
+  dloop (fun d it => match dexec_list body (mkDEnv [] [] DirInvalid (match snd it with None => a | Some x => aupdate a x end) []
+                                                   (fst it) LNone SdIn SdOut ([], []) dext0) d
+                     with (d', o) => (d', o, O) end) items d.
